@@ -16,6 +16,11 @@ STORED_TEXT = {
 }
 
 
+# Model methods whose text argument is, by contract, formula text in the storage form (callers pass DefinedName.formula,
+# CfRule formulas, names copied by duplicate_sheet): every parse inside them needs the storage configuration
+INTERNAL_TEXT_HELPERS = {"parse_internal_formula": ("A1", "default", "default")}
+
+
 def _is_model_parser(body, op):
     rt = body.ref_target(op)
     if rt is None:
@@ -152,6 +157,9 @@ def pcfg(ck, F, only=None):
             k += 1
             n_sites += 1
             f, l = body.loc(bi)
+            if req is None and name in INTERNAL_TEXT_HELPERS:
+                # the function's contract: its text argument is stored (English, default locale) text
+                req = (("helper", name), INTERNAL_TEXT_HELPERS[name])
             if req is None:
                 ck.ob(R, "%s|parse#%d|user-text" % (name, k), True, nontrivial=False)
                 continue
